@@ -28,6 +28,13 @@ func (v *Vue) evalTemplate(ctx VueContext, nodes []*html.Node, componentData map
 
 		// Check for include attribute - handle inclusion first
 		if helpers.HasAttr(node, "include") {
+			// The attributes are evaluated on a copy of the tag: the tag
+			// itself may be evaluated again (slot content used more than
+			// once) and must keep its bindings.
+			inc := helpers.ShallowCloneWithAttrs(node)
+			inc.FirstChild, inc.LastChild = node.FirstChild, node.LastChild
+			node = inc
+
 			vars, err := v.evalAttributes(ctx, node)
 			if err != nil {
 				return nil, err
